@@ -30,7 +30,9 @@ def run_suites(scratch, suites, jobs=12, mode="hist", harness_env=None, timeout=
             for i, h in enumerate(hists):
                 work.append((sname, i, [h]))
             continue
-        for i, ch in enumerate(chunked(hists, 6000)):
+        # chunks small enough that one harness process never comes near its time limit, and that the
+        # worker pool stays busy
+        for i, ch in enumerate(chunked(hists, 400)):
             work.append((sname, i, ch))
     results = {}
     stats = {}
